@@ -75,7 +75,9 @@ fn write_tok(n: &Node, rng: &mut Rng, ctr: &mut usize, toks: &mut Vec<Tok>, out:
                     (format!("v{}", ctr), format!("v{}", ctr))
                 };
                 let q = if rng.chance(1, 2) { '"' } else { '\'' };
-                write!(out, " {}={}{}{}", a, q, raw, q).unwrap();
+                // attributes may be separated by any white space, not only a blank
+                let sep = *rng.pick(&[" ", " ", " ", "\t", "\n\t\t", "\r\n", "  "]);
+                write!(out, "{}{}={}{}{}", sep, a, q, raw, q).unwrap();
                 toks.push((val.clone(), None));
                 vattrs.push((a.clone(), val));
             }
@@ -111,7 +113,13 @@ fn write_doc_tok(top: &[Node], rng: &mut Rng) -> (String, Vec<Tok>, Vec<VN>) {
     let mut vtop = vec![];
     let pretty = rng.chance(1, 3);
     if rng.chance(1, 3) {
-        out.push_str("<?xml version=\"1.0\" encoding=\"UTF-8\"?>\n");
+        out.push_str(*rng.pick(&[
+            "<?xml version=\"1.0\" encoding=\"UTF-8\"?>\n",
+            "<?xml version=\"1.0\" encoding=\"utf-8\"?>\n",
+            "<?xml version=\"1.0\"?>\n",
+            "<?xml version='1.0' encoding='UTF-8' standalone='yes'?>\n",
+            "<?xml version=\"1.0\" encoding=\"Utf-8\"?>\n",
+        ]));
         vtop.push(VN::Misc);
     }
     for n in top {
